@@ -131,6 +131,7 @@ fn run_line(ctx: &mut verbs::Ctx, line: &str) -> bool {
     let mut s = J::Obj(rec).to_string();
     s.push('\n');
     emit(&s);
+    mon::flush_coverage();
     true
 }
 
